@@ -117,7 +117,9 @@ Definition srv_init (c : srvcfg) : response :=
 (* after the handler returned: (response to write, connectionClose) *)
 Definition srv_finish (c : srvcfg) (q : reqinfo) (R : response) : response * bool :=
   let R1 := if q_head q then with_skip R true else R in
-  let cc := q_close q || c_disableKA c || hclose (rh (r_hd R1)) in
+  (* a skipped body on a response that is not to a HEAD request: the peer cannot find the end of the message *)
+  let skipped := negb (q_head q) && r_skip R && negb (mustSkipContentLength (r_hd R)) in
+  let cc := q_close q || c_disableKA c || skipped || hclose (rh (r_hd R1)) in
   let hd := r_hd R1 in
   let hd := if cc then RSetConnectionClose hd
             else if negb (q_http11 q) then with_rh hd (hsetNonSpecial (rh hd) strConnection strKeepAlive)
